@@ -766,9 +766,7 @@ class Executor2(Executor):
             else:
                 exits_out.append(x)
         for i, b in enumerate(back):
-            inv_b = self.inv_eval(L.invariant, b, entry)
-            if not z3.is_true(inv_b):
-                self._ob(b, inv_b, "%s.invariant-preserved" % tag, "loop")
+            self.ob_invariant_preserved(L, b, entry, tag)
             if v0 is not None:
                 v1 = self.spec_value(L.decreases, b, self.old_state, None)
                 self._ob(b, z3.And(v1.t < v0.t, v0.t >= 0) if True else None, "%s.progress[decreases %s]" % (tag, L.decreases), "termination")
@@ -800,6 +798,20 @@ class Executor2(Executor):
     def _nf(self):
         self.fresh_n += 1
         return self.fresh_n
+
+    def ob_invariant_preserved(self, L, b, entry, tag):
+        """obligation(s) 'the invariant holds again at the back edge'"""
+        if getattr(L, "split", False):
+            node = ast.parse(L.invariant.strip(), mode="eval").body
+            if isinstance(node, ast.BoolOp) and isinstance(node.op, ast.And):
+                for k, part in enumerate(node.values):
+                    g = self.inv_eval(ast.unparse(part), b, entry)
+                    if not z3.is_true(g):
+                        self._ob(b, g, "%s.invariant-preserved[conjunct %d]" % (tag, k), "loop")
+                return
+        inv_b = self.inv_eval(L.invariant, b, entry)
+        if not z3.is_true(inv_b):
+            self._ob(b, inv_b, "%s.invariant-preserved" % tag, "loop")
 
     def _ob(self, st, goal, label, kind):
         name = "%s.%s" % (self.cur_name, label)
